@@ -7,6 +7,7 @@
 # License: BSD
 # ------------------------------------------------------------------------------
 
+import copy
 from typing import Any, List, Tuple, cast
 
 from . import c_ast
@@ -168,16 +169,32 @@ def _fix_atomic_specifiers_once(
 
     assert isinstance(parent, c_ast.TypeDecl)
     assert grandparent is not None
-    if node.type.coord is None:
+    # The Typename belongs to the specifiers, which all declarators of a
+    # declaration share ("_Atomic(int) a, *b;"): every declarator gets its own
+    # copy of the derivation it contributes.
+    inner = _copy_declarator_chain(node.type)
+    if inner.coord is None:
         # Preserve the declarator coord for _Atomic(T) so TypeDecl doesn't lose
         # its location when we replace the wrapper Typename.
-        node.type.coord = parent.coord
-    cast(Any, grandparent).type = node.type
+        inner.coord = parent.coord
+    cast(Any, grandparent).type = inner
     # Array and function declarators carry no qualifiers of their own; a
     # qualifier on such a type applies to the element / return type.
-    qualified: Any = node.type
+    qualified: Any = inner
     while not hasattr(qualified, "quals") and hasattr(qualified, "type"):
         qualified = qualified.type
     if hasattr(qualified, "quals") and "_Atomic" not in qualified.quals:
         qualified.quals.append("_Atomic")
     return decl, True
+
+
+def _copy_declarator_chain(node: Any) -> Any:
+    """Copies the pointer/array/function/TypeDecl nodes of a declarator chain;
+    the base type at its end stays shared, as it is between declarators.
+    """
+    clone = copy.copy(node)
+    if getattr(clone, "quals", None) is not None:
+        clone.quals = list(clone.quals)
+    if not isinstance(node, c_ast.TypeDecl) and getattr(node, "type", None) is not None:
+        clone.type = _copy_declarator_chain(node.type)
+    return clone
